@@ -515,6 +515,7 @@ def load_cases(run, tier, seed):
         run.add_tlc("PotExpr_quick", res)
         cases = tlc.read_ndjson(os.path.join(res.outdir, "cases.ndjson"))
         _POWVAR[:] = tlc.read_ndjson(os.path.join(res.outdir, "powvar.ndjson"))
+        _POWTOWER[:] = tlc.read_ndjson(os.path.join(res.outdir, "powtower.ndjson"))
     finally:
         tlc.cleanup(res)
     # depth 2 by simulation: behaviours of the grammar, finished trees printed by the EmitCase invariant
@@ -558,6 +559,35 @@ def load_cases(run, tier, seed):
 
 
 _POWVAR = []
+_POWTOWER = []
+
+
+def powtower_check(run):
+    """pow(a, pow(b, c)) = a ** (b ** c) (PowTowerCases of PotExpr.tla): the exponent is itself a power; through potable text (bare and
+    wrapped in a sum) and through the Python API"""
+    for c in _POWTOWER:
+        a, b, k, v = c["a"], c["b"], c["c"], c["v"]
+        defs = ["pow(as.constant %d, pow(as.constant %d, as.constant %d))" % (a, b, k),
+                "pow(as.constant %d, sum(pow(as.constant %d, as.constant %d), as.zero))" % (a, b, k),
+                "sum(as.zero, pow(as.constant %d, pow(as.constant %d, as.constant %d)))" % (a, b, k)]
+        text = "[Tabulation]\ntarget : LAMMPS\nnr : 5\ncutoff : 4.0\n\n[Pair]\n" + "\n".join("A-B%d : %s" % (i, d) for i, d in enumerate(defs)) + "\n"
+        try:
+            pots = Configuration().read(io.StringIO(text)).potentials
+            fns = [("potable '%s'" % d, p.potentialFunction) for d, p in zip(defs, sorted(pots, key=lambda p: p.speciesB))]
+            fns.append(("atsim.potentials.pow(a, pow(b, c))", AP.pow(PF.constant(float(a)), AP.pow(PF.constant(float(b)), PF.constant(float(k))))))
+        except Exception as e:
+            run.violation(dict(engine="algebra", clause="well-formed-definition-refused"), "[well-formed-definition-refused] %s: %s: %s" % (defs[0], type(e).__name__, str(e)[:200]), dict(case=c))
+            continue
+        for what, f in fns:
+            for x in (1.0, 2.5):
+                run.evaluations += 1
+                got = f(x)
+                if abs(got - v) > 1e-9 * abs(v):
+                    run.violation(dict(engine="algebra", clause="value"), "[value] %s at r=%s = %r; %d ** (%d ** %d) = %d%s" % (
+                        what, x, got, a, b, k, v, " (and (%d ** %d) ** %d = %d)" % (a, b, k, c["other"]) if abs(got - c["other"]) < 1e-9 * abs(c["other"]) else ""), dict(case=c))
+                    break
+        run.replayed += 1
+        run.distinct("powtower:%d:%d:%d" % (a, b, k))
 
 
 def powvar_check(run):
@@ -638,6 +668,8 @@ def main(prop, tier, seed):
             forms.run_forms(run, "derivs")
         if not run.machinery_errors:
             powvar_check(run)
+            if _MODE == "C09":
+                powtower_check(run)
         if not run.machinery_errors:
             _CASES = cases
             with mp.Pool(min(16, os.cpu_count() or 1)) as pool:
